@@ -64,6 +64,19 @@ def near_wrap(e, name):
     return any(abs(abs(float(a)) - math.pi) < 0.02 for a in angs)
 
 
+def make_vals_in_range(rng, k):
+    """moderate pose values of kind k written straight into a pose array (no constructor: SE(2) angle kept inside (-3, 3), unit quaternion)"""
+    if k == 'R2':
+        return [rng.uniform(-5, 5), rng.uniform(-5, 5)]
+    if k == 'R3':
+        return [rng.uniform(-5, 5) for _ in range(3)]
+    if k == 'SE2':
+        return [rng.uniform(-5, 5), rng.uniform(-5, 5), rng.uniform(-3, 3)]
+    q = [rng.gauss(0, 1) for _ in range(4)]
+    n = math.sqrt(sum(x * x for x in q))
+    return [rng.uniform(-5, 5) for _ in range(3)] + [x / n for x in q]
+
+
 def check_edge_jacobians(seed, n_per):
     rng = random.Random(seed)
     fails, evals = [], 0
@@ -73,6 +86,18 @@ def check_edge_jacobians(seed, n_per):
             vals = gen_case(rng, name, fl)
             try:
                 e, kinds = ce.build(name, vals)
+                seq = None
+                if rng.random() < 0.3:
+                    # HISTORY that must not matter: the error / chi2 was evaluated at other poses, then a vertex pose array was
+                    # overwritten IN PLACE (poses are numpy arrays) -- the Jacobians must be those of the CURRENT poses
+                    seq = rng.choice(['calc_error', 'calc_chi2', 'calc_jacobians'])
+                    getattr(e, seq)()
+                    kk = rng.randrange(2)
+                    vals0 = [list(v) if v is not None else None for v in vals]
+                    nv = make_vals_in_range(rng, kinds[kk])
+                    arr = e.vertices[kk].pose
+                    np.ndarray.__setitem__(arr, slice(None), np.array(nv, dtype=np.float64))
+                    vals = [list(map(float, np.asarray(e.vertices[0].pose))), list(map(float, np.asarray(e.vertices[1].pose)))] + list(vals[2:])
                 if near_wrap(e, name):
                     continue
                 Ja = [np.asarray(J, dtype=np.float64) for J in e.calc_jacobians()]
@@ -88,6 +113,8 @@ def check_edge_jacobians(seed, n_per):
                     unc = float(np.abs(b - b2).max()) if b.shape == b2.shape else 0.0
                     if not err <= 5e-5 * scale + 10.0 * unc:
                         fails.append({'edge': name, 'vals': vals, 'vertex': k, 'why': 'max |J - numeric| = %g (scale %g)' % (err, scale),
+                                      'after_history': seq and {'call': seq, 'then': 'pose array of vertex %d overwritten in place' % kk, 'vertex': kk,
+                                                                'initial_vals': vals0},
                                       'analytic': a.tolist(), 'numeric': b.tolist()})
                         break
             except Exception as ex:  # noqa
